@@ -572,7 +572,7 @@ class Config(object):
     def __init__(self, n=3, observers=0, batch=True, batch_bytes=2 ** 16, chunk=2 ** 16, journal=None,
                  dyn=False, obj='list', period=0.01, tmin=0.04, tmax=0.05, fallback=1e9, wait_leader=True,
                  qsize=1000, min_entries=1000000, exact_time=False, fuse=False, members=None, conf_extra=None,
-                 consumers=None, use_fork=False, h_all=False, methods=(), free_restart=True, spare=0, versions=(0, 1, 2), serializer=None):
+                 consumers=None, use_fork=False, h_all=False, methods=(), free_restart=True, spare=0, versions=(0, 1, 2), serializer=None, kill_only=None):
         self.n = n
         self.observers = observers
         self.batch = batch
@@ -598,6 +598,7 @@ class Config(object):
         self.versions = tuple(versions)
         self.spare = spare              # absent node ids that a membership change may add
         self.free_restart = free_restart   # restarts do not consume budget (kills do)
+        self.kill_only = kill_only         # restrict kill events to these nodes (None: every journaled voter)
         self.methods = tuple(methods)   # extra replicated methods offered as submissions (besides put)
         self.h_all = h_all              # heartbeat-sized time steps on non-leaders too
 
@@ -1097,7 +1098,7 @@ class ClusterModel(object):
                         evs.append(('R', a, b2))
         if bud['P'] > 0:
             for s in sums:
-                if s.alive and self.cfg.journal and s.voter:
+                if s.alive and self.cfg.journal and s.voter and (self.cfg.kill_only is None or s.nid in self.cfg.kill_only):
                     evs.append(('P', s.nid))
                     for nev, label in self.node_events_of(w, s):
                         nw = self.st.step(w.nk(s.nid), nev)[4]
